@@ -327,11 +327,13 @@ def build(rows, strict=False):
             if use.blame is not None:
                 # raise< T >: Control< T >::raise names T -- pegtl's own demangling of T if T is in the table, else the C++ name
                 tid = name2id.get(canon(use.blame))
+                p = [tid or 0]           # the type whose raise() is called (0: not in the table)
                 s = rows[tid - 1]["dn"] if tid else use.blame
                 if tid and rows[tid - 1]["hasmsg"]:
                     thas, tmsg = 1, rows[tid - 1]["emsg"]
             else:
                 # raise_message< Cs... > raises for itself
+                p = [r["id"]]
                 s = r["dn"]
                 thas, tmsg = r["hasmsg"], r["emsg"]
         iv = impl if impl is not None else View("opaque")
@@ -339,7 +341,7 @@ def build(rows, strict=False):
             "id": r["id"], "name": r["name"], "dn": r["dn"], "op": use.op, "kids": kids, "p": p, "s": s,
             "named": named, "en": r["en"], "vid": r["vid"], "ak": r["ak"], "sel": r["sel"], "lim": r.get("lim", 0), "sw": r.get("sw", 0),
             "hasmsg": r["hasmsg"], "emsg": r["emsg"], "thas": thas, "tmsg": tmsg, "prop": prop_of(use.op),
-            "iop": iv.op, "ikids": list(r["subs"]), "ip": list(iv.p),
+            "iop": iv.op, "ikids": list(r["subs"]), "ip": list(p) if iv.op == "raise" else list(iv.p),
         })
     return {"nodes": nodes}, unknown
 
